@@ -23,7 +23,7 @@ type lockReq struct {
 // syncExempt: fields synchronised by something other than the struct's mutex, one named symbol each, with the reason.
 // Each reason is a checked statement where a rule exists for it.
 var syncExempt = map[string]string{
-	"segmentMetadata.numDocs": "written only by updateStats, which is called on a freshly constructed segment before it is published through segmentManager.add (checked: C11.LCK1 publish-order) — afterwards the field is read-only",
+	"segmentMetadata.numDocs":             "written only by updateStats, which is called on a freshly constructed segment before it is published through segmentManager.add (checked: C11.LCK1 publish-order) — afterwards the field is read-only",
 	"PersistentHybridIndex.finalFlushErr": "written by the flush worker before wg.Done, read by Close after wg.Wait (WaitGroup happens-before; checked by C09.ERR err:Close:after-wait)",
 }
 
